@@ -6,14 +6,14 @@ export CARGO_NET_OFFLINE=true
 mkdir -p work evidence/replays ocaml/gen ocaml/bin coq/Gen
 python3 tools/translate.py /repo coq/Gen
 cd coq
-(echo "-Q . SV"; find . -name '*.v' | sed 's|^\./||' | sort) > _CoqProject
+(echo "-Q . SV"; find . -name '*.v' | sed 's|^\./||' | grep -viE '(^|/)(tmp|dbg|debug|scratch|wip_|test_)|tmp\.v$|dbg\.v$' | sort) > _CoqProject
 coq_makefile -f _CoqProject -o Makefile >/dev/null
 timeout 7200 make -j16 > ../work/setup-coq.log 2>&1 || { tail -40 ../work/setup-coq.log; echo "setup: coq build failed"; exit 1; }
 cd ..
 python3 - <<'PY'
 import glob, json, subprocess, sys
 done = set()
-for f in sorted(glob.glob('checks/C*.json')):
+for f in sorted(glob.glob('checks/C*.json')):  # base files and fragments alike
     for st in json.load(open(f)).get('streams', []):
         if 'extract' in st and st['driver'] not in done:
             done.add(st['driver'])
